@@ -17,13 +17,14 @@ Definition num_member (c : config) (n : bytes) : bool :=
 Lemma qf_num_off off sp_sfx fixed o n : qf off sp_sfx fixed IFNum o n = qf 0 sp_sfx fixed IFNum o n.
 Proof. unfold qf. destruct (infix_candidate sp_sfx o fixed n); reflexivity. Qed.
 
+(* (the number filter: "r" and one or more digits, nothing else; what follows the infix - y - is the restart part,
+   the suffix, ".gz") *)
 Lemma qf_num_shape off sp_sfx fixed o n : qf off sp_sfx fixed IFNum o n = true ->
-  exists d x y, is_digit d = true /\ n = under fixed ++ r_char :: d :: x :: y.
+  exists ds y, ds <> [] /\ all_digits ds = true /\ n = under fixed ++ r_char :: ds ++ y.
 Proof.
   unfold qf. destruct (infix_candidate sp_sfx o fixed n) as [infix|] eqn:E; [|discriminate].
-  apply infix_candidate_prefix in E. destruct E as [y E]. intros Hf. cbn [filter_infix] in Hf.
-  destruct infix as [|a [|d [|x r]]]; try discriminate. apply andb_true_iff in Hf. destruct Hf as [Ha Hd].
-  apply N.eqb_eq in Ha. subst a. exists d, x, (r ++ y). split; [exact Hd|]. rewrite E. reflexivity.
+  apply infix_candidate_prefix in E. destruct E as [y E]. intros Hf. apply filter_num_spec in Hf.
+  destruct Hf as [ds [-> [Hne Hd]]]. exists ds, y. split; [exact Hne|]. split; [exact Hd|]. rewrite E. reflexivity.
 Qed.
 
 (* the archive name of a listed plain file is listed among the archives (the suffix of the family must not be "gz":
@@ -42,13 +43,14 @@ Qed.
 (* a name that is listed as an archive of a numbered file has the extension gz *)
 Lemma qf_gz_ext off sp_sfx fixed n : qf off sp_sfx fixed IFNum (Some gz_sfx) n = true -> ext_is n gz_sfx = true.
 Proof.
-  intros H. destruct (qf_num_shape off sp_sfx fixed (Some gz_sfx) n H) as [d [x [y [_ Shape]]]].
+  intros H. destruct (qf_num_shape off sp_sfx fixed (Some gz_sfx) n H) as [ds [y [Hne [_ Shape]]]].
+  destruct ds as [|d ds]; [congruence|]. clear Hne.
   unfold qf in H. destruct (infix_candidate sp_sfx (Some gz_sfx) fixed n) as [infix|] eqn:E; [|discriminate].
   unfold infix_candidate in E. destruct (strip_suffix (dot :: gz_sfx) n) as [stem|] eqn:Es; [|discriminate].
   apply strip_suffix_spec in Es. fold dot_gz in Es. rewrite Es, <- gz_name_app. apply ext_is_gz_name.
   intros ->. cbn [app] in Es. rewrite Es in Shape. unfold under in Shape. destruct fixed as [|f0 fr].
   - cbn [app] in Shape. unfold dot_gz in Shape. injection Shape as Shape _. discriminate.
-  - apply (f_equal (@length N)) in Shape. rewrite !app_length in Shape. cbn [length dot_gz gz_sfx] in Shape. lia.
+  - apply (f_equal (@length N)) in Shape. cbn [app] in Shape. rewrite ?app_length in Shape. cbn [length dot_gz gz_sfx] in Shape. rewrite ?app_length in Shape. cbn [length] in Shape. lia.
 Qed.
 
 Section EmbedModel.
